@@ -147,3 +147,13 @@ META["C28"] = dict(technique=_FS_TECH, note=_FS_NOTE,
 META["C29"] = dict(technique=_FS_TECH + "; opener rule: fn/Opener.tla table replayed through the real pubsub controller", note=_FS_NOTE,
     text="Exactly one side opens the pubsub stream for all pairs of distinct id strings up to length 3 (incl. prefixes) and seeded real peer ids (through pubsub_controller.trackLink with fake mounted links); "
          "at every quiescent point the last announcement on every link agrees with the node's local subscriptions (Subscribe=false after the last release), and no handler runs after Release.")
+REGISTRY["C19"] = ("sigclient", "run")
+REGISTRY["C23"] = ("sigclient", "run")
+_SC_TECH = "TLC model checking of SignalingClient.tla (liveness under fairness against an abstract relay); TLC-enumerated relay histories (ClientEnv.tla) played against the real client; recorded traces validated by TLC (ClientMon.tla)"
+_SC_NOTE = "The relay is a harness fake of the generated SRPC client interface; stream failure / backoff retry is only exercised through the tear-down after a forged message; the relay half of C23 is covered by the C22 check (QuiescentAnnounced)."
+META["C19"] = dict(technique=_SC_TECH, note=_SC_NOTE,
+    text="Every history (<= 5 steps) in which a malicious relay delivers honest, bit-flipped, third-key-claiming-the-partner, other-context and other-peer messages to a client session: "
+         "ClientPeerRef.Recv only ever returns messages the partner signed under the signaling context, byte-identical.")
+META["C23"] = dict(technique=_SC_TECH, note=_SC_NOTE,
+    text="Assume/guarantee: SignalingClient.tla proves <>[] AllSendsDone under fairness against a relay that behaves as SignalingRelay.tla guarantees (re-opens with and without close, acks overtaken by re-opens). "
+         "All 442 relay histories of length 6 are played against the real client with two concurrent Sends; after the relay stabilises every Send has returned successfully at quiescence.")
